@@ -13,6 +13,7 @@ import VotelibProofs.Lemmas.MonoAdditive
 import VotelibProofs.Lemmas.MonoBucklin
 import VotelibProofs.Lemmas.MonoMinimax
 import VotelibProofs.Lemmas.MonoBridge
+import VotelibProofs.Lemmas.MonoRules
 namespace VL.C17
 open VL HACfg Gen.Divisor VL.Convert VL.Mono
 
@@ -194,51 +195,6 @@ theorem positional_monotone_new (sc : Scorer) (hsc : ScorerOK sc) (p : RProfile)
 
 /-! ### approval voting -/
 
-/-- what one approval ballot contributes -/
-def approvalItems (bw : Approval × Rat) : List (Cand × Rat) := bw.1.map (fun c => (c, bw.2))
-
-theorem approval_additive : Additive approvalItems (fun b k => cnt b k) (fun b => b) := by
-  refine ⟨fun bw k => ?_, fun bw k => by simp [approvalItems, dkeys, List.map_map, Function.comp_def]⟩
-  obtain ⟨b, v⟩ := bw
-  simp only [approvalItems]
-  induction b with
-  | nil => simp
-  | cons a t ih => rw [List.map_cons, toFun_cons, ih, cnt_cons]; simp only; split <;> ring
-
-theorem evalApproval_eq (p : AProfile) : evalApproval p = .ok (getNBest (accum approvalItems p []) 1) := by
-  unfold evalApproval
-  rw [approvalToSimple_eq_ok false p (by simp)]
-  simp only [Except.ok.injEq]
-  congr 1
-  unfold accum
-  congr 1
-  funext agg bw
-  simp [approvalStep, approvalItems, List.foldl_map]
-
-theorem cnt_approve (w : Cand) (b : Approval) (k : Cand) (hw : w ∉ b) :
-    cnt (approve w b) k = cnt b k + (if w = k then 1 else 0) := by
-  induction b with
-  | nil => simp [approve, cnt_cons]
-  | cons c cs ih =>
-    have hwc : w ≠ c := fun h => hw (by simp [h])
-    have hwcs : w ∉ cs := fun h => hw (by simp [h])
-    by_cases h1 : w < c
-    · simp only [approve, if_pos h1]
-      rw [cnt_cons]; ring
-    · simp only [approve, if_neg h1, if_neg hwc]
-      rw [cnt_cons, cnt_cons, ih hwcs]; ring
-
-theorem mem_approve (w : Cand) (b : Approval) (k : Cand) : k ∈ approve w b ↔ k = w ∨ k ∈ b := by
-  induction b with
-  | nil => simp [approve]
-  | cons c cs ih =>
-    simp only [approve]
-    split
-    · simp
-    · split
-      · rename_i h; subst h; simp
-      · simp only [List.mem_cons, ih]; tauto
-
 /-- **Approval, single ballot improvement**: one voter who did not approve the sole winner `w` now does. -/
 theorem approval_monotone_approve (p : AProfile) (b : Approval) (w : Cand) (hb : b ∈ dkeys p) (hw : w ∉ b)
     (h : evalApproval p = .ok [Slot.cand w]) :
@@ -265,88 +221,6 @@ theorem approval_monotone_new (p : AProfile) (nb : Approval) (w : Cand) (hnd : n
 
 /-! ### score voting with sum aggregation -/
 
-def scoreItems (bw : ScoreBallot × Rat) : List (Cand × Rat) := bw.1.map (fun cs => (cs.1, bw.2 * cs.2))
-
-theorem score_additive : Additive scoreItems (fun b k => toFun b k) (fun b => dkeys b) := by
-  refine ⟨fun bw k => ?_, fun bw k => by simp [scoreItems, dkeys, List.map_map, Function.comp_def]⟩
-  obtain ⟨b, v⟩ := bw
-  simp only [scoreItems]
-  induction b with
-  | nil => simp
-  | cons a t ih => rw [List.map_cons, toFun_cons, toFun_cons, ih]; simp only; split <;> ring
-
-theorem evalScoreSum_eq (p : SProfile) : evalScoreSum p = getNBest (accum scoreItems p []) 1 := by
-  unfold evalScoreSum scoreSum accum
-  congr 2
-  funext agg bw
-  simp [scoreItems, List.foldl_map]
-
-/-- a score ballot in canonical form: candidates strictly ascending (a frozenset of (candidate, score) pairs
-    scoring every candidate at most once) -/
-def ScoreBallotOK (b : ScoreBallot) : Prop := (dkeys b).Pairwise (· < ·)
-
-theorem toFun_raiseScore (w : Cand) (s : Rat) (b : ScoreBallot) (hb : ScoreBallotOK b) (k : Cand) :
-    toFun (raiseScore w s b) k = if k = w then s else toFun b k := by
-  induction b with
-  | nil =>
-    simp only [raiseScore, toFun_cons, toFun_nil]
-    by_cases h : k = w
-    · rw [if_pos h.symm, if_pos h]; ring
-    · rw [if_neg (fun h' => h h'.symm), if_neg h]; ring
-  | cons e rest ih =>
-    obtain ⟨c, x⟩ := e
-    unfold ScoreBallotOK at hb ih
-    simp only [dkeys, List.map_cons, List.pairwise_cons] at hb ih
-    obtain ⟨hlt, hrest⟩ := hb
-    simp only [raiseScore]
-    by_cases h1 : w < c
-    · rw [if_pos h1, toFun_cons]
-      simp only
-      by_cases hk : k = w
-      · subst hk
-        rw [if_pos rfl, if_pos rfl]
-        have : toFun ((c, x) :: rest) k = 0 := by
-          apply toFun_eq_zero_of_not_mem
-          simp only [dkeys, List.map_cons, List.mem_cons, not_or]
-          refine ⟨fun h => ?_, fun hm => ?_⟩
-          · rw [h] at h1; exact lt_irrefl _ h1
-          · exact lt_asymm h1 (hlt k hm)
-        rw [this]; ring
-      · rw [if_neg (fun h => hk h.symm), if_neg hk]; ring
-    · rw [if_neg h1]
-      by_cases h2 : w = c
-      · subst h2
-        rw [if_pos rfl, toFun_cons, toFun_cons]
-        simp only
-        by_cases hk : k = w
-        · subst hk
-          have : toFun rest k = 0 := by
-            apply toFun_eq_zero_of_not_mem
-            intro hm
-            exact lt_irrefl _ (hlt k hm)
-          rw [if_pos rfl, if_pos rfl, this]; ring
-        · rw [if_neg (fun h => hk h.symm), if_neg hk, if_neg (fun h => hk h.symm)]
-      · rw [if_neg h2, toFun_cons, toFun_cons, ih hrest]
-        simp only
-        by_cases hk : k = w
-        · subst hk
-          rw [if_neg (fun h => h2 h.symm), if_pos rfl, if_pos rfl]; ring
-        · rw [if_neg hk, if_neg hk]
-
-theorem mem_dkeys_raiseScore (w : Cand) (s : Rat) (b : ScoreBallot) (k : Cand) :
-    k ∈ dkeys (raiseScore w s b) ↔ k = w ∨ k ∈ dkeys b := by
-  induction b with
-  | nil => simp [raiseScore, dkeys]
-  | cons e rest ih =>
-    obtain ⟨c, x⟩ := e
-    simp only [raiseScore]
-    split
-    · simp [dkeys]
-    · split
-      · rename_i h; subst h; simp [dkeys]
-      · simp only [dkeys, List.map_cons, List.mem_cons] at ih ⊢
-        rw [ih]; tauto
-
 /-- **Score-sum, single ballot improvement**: on one ballot the score of the sole winner `w` is raised (an
     unscored `w`, which the sum treats as 0, gets a non-negative score). -/
 theorem score_sum_monotone_raise (p : SProfile) (b : ScoreBallot) (w : Cand) (s : Rat) (hb : b ∈ dkeys p)
@@ -371,14 +245,6 @@ theorem score_sum_monotone_new (p : SProfile) (nb : ScoreBallot) (w : Cand)
 
 /-! ### Bucklin (`PreferenceAddition()`; shared ranks counted in full, i.e. `split_equal_rankings=False`, which
     coincides with the default on profiles without shared ranks) -/
-
-theorem ne_nil_of_mem_dkeys {κ : Type} {p : Dict κ} {b : κ} (h : b ∈ dkeys p) : p ≠ [] := by
-  rintro rfl; simp [dkeys] at h
-
-theorem addTo_ne_nil {κ : Type} [DecidableEq κ] (p : Dict κ) (b : κ) (v : Rat) : addTo p b v ≠ [] := by
-  cases p with
-  | nil => simp [addTo]
-  | cons e t => obtain ⟨k, x⟩ := e; simp only [addTo]; split <;> simp
 
 /-- **Bucklin, single ballot improvement.**  Non-negative weights, ballots without repeated candidates: if `w` is
     the sole winner and one unit of ballot `b` is replaced by `b` with `w` lifted, `w` is still the sole winner. -/
@@ -442,6 +308,26 @@ theorem bucklin_monotone_bullet (p : RProfile) (w : Cand) (hpos : ∀ bw ∈ p, 
     intro x hx
     exact le_maxLen ((mem_dkeys_addTo p _ 1 x).mpr (Or.inl hx))
 
+/-- **Bucklin as shipped (`PreferenceAddition()`, shared ranks split), single ballot improvement**, for profiles
+    without shared ranks (on which the splitting step is the identity; the lifted ballot has no shared rank either). -/
+theorem bucklin_default_monotone_lift (p : RProfile) (w : Cand) (i : Nat) (b : Ballot) (hs : Strict p)
+    (hpos : ∀ bw ∈ p, 0 ≤ bw.2) (hb : b ∈ dkeys p) (hnd : (ballotCands b).Nodup) (hok : liftOK w i b = true)
+    (h : evalBucklinSplit p = .ok [Slot.cand w]) :
+    evalBucklinSplit (replaceUnit p b (lift w i b)) = .ok [Slot.cand w] := by
+  unfold evalBucklinSplit at h ⊢
+  rw [decouple_of_strict p hs] at h
+  rw [decouple_of_strict _ (strict_replaceUnit hs hb)]
+  exact bucklin_monotone_lift p w i b hpos hb hnd hok h
+
+/-- **Bucklin as shipped, new bullet ballot**, for profiles without shared ranks. -/
+theorem bucklin_default_monotone_bullet (p : RProfile) (w : Cand) (hs : Strict p) (hpos : ∀ bw ∈ p, 0 ≤ bw.2) (hp : p ≠ [])
+    (h : evalBucklinSplit p = .ok [Slot.cand w]) :
+    evalBucklinSplit (addTo p [RankItem.one w] 1) = .ok [Slot.cand w] := by
+  unfold evalBucklinSplit at h ⊢
+  rw [decouple_of_strict p hs] at h
+  rw [decouple_of_strict _ (strict_bullet w hs)]
+  exact bucklin_monotone_bullet p w hpos hp h
+
 /-! ### Copeland and minimax, on the level of the pairwise matrix
 
   `Raised v v' w`: compared with `v`, in `v'` only the entries `d(w, ·)` rise and `d(·, w)` fall (what moving `w`
@@ -504,17 +390,6 @@ theorem minimax_monotone (sc : Condorcet.Scorer) (v v' : Pairwise) (w : Cand) (h
   pair (false only for the degenerate profiles whose every ballot puts all candidates into one shared rank, on which
   these evaluators return `[]`).  "One unit of weight": the changed ballot has weight at least 1. -/
 
-theorem mem_candidates_of_copeland {p : RProfile} {w : Cand} (h : evalCopeland false p = [Slot.cand w]) :
-    w ∈ Condorcet.candidates (pairwiseOf p) := by
-  have h0 : getNBest (Condorcet.seededScores (pairwiseOf p)
-      (Condorcet.copelandScoresRaw (Condorcet.pairwiseWins (pairwiseOf p) false))) 1 = [Slot.cand w] := by
-    unfold evalCopeland Condorcet.copeland at h; simpa using h
-  have hn : (keys (Condorcet.seededScores (pairwiseOf p)
-      (Condorcet.copelandScoresRaw (Condorcet.pairwiseWins (pairwiseOf p) false)))).Nodup := by
-    rw [keys_seeded]; exact Condorcet.nodup_candidates _
-  rw [sole_iff _ hn, soleMax_iff _ hn, keys_seeded] at h0
-  exact h0.1
-
 /-- **Copeland, single ballot improvement.**  If `w` is the strict Copeland maximum and one unit of ballot `b` is
     replaced by `b` with `w` lifted, the Copeland result (with or without second-order tie-breaking) is `[w]`. -/
 theorem copeland_monotone_lift (p : RProfile) (w : Cand) (i : Nat) (b : Ballot) (secondOrder : Bool)
@@ -532,16 +407,6 @@ theorem copeland_monotone_bullet (p : RProfile) (w : Cand) (secondOrder : Bool) 
   have hw := mem_candidates_of_copeland h
   have f := matrixFacts_bullet p w hp hw
   exact copeland_monotone _ _ w secondOrder f.wf f.wf' f.raised f.cands (mem_candidates_bullet p w hp hw) h
-
-theorem mem_candidates_of_minimax {sc : Condorcet.Scorer} {p : RProfile} {w : Cand} (hp : ProfileOK p)
-    (h : evalMinimax sc p = [Slot.cand w]) : w ∈ Condorcet.candidates (pairwiseOf p) := by
-  unfold evalMinimax at h
-  rw [minimax_eq_worst sc _ (wf_pairwiseOf p hp).1] at h
-  have hn : (keys ((Condorcet.candidates (pairwiseOf p)).map
-      (fun c => (c, -(Condorcet.worstDefeat sc (pairwiseOf p) c))))).Nodup := by
-    rw [keys_worstTable]; exact Condorcet.nodup_candidates _
-  rw [sole_iff _ hn, soleMax_iff _ hn, keys_worstTable] at h
-  exact h.1
 
 /-- **Minimax (winning votes / margins / pairwise opposition), single ballot improvement.** -/
 theorem minimax_monotone_lift (sc : Condorcet.Scorer) (p : RProfile) (w : Cand) (i : Nat) (b : Ballot)
@@ -587,7 +452,8 @@ example : liftOK 0 1 [.one 2, .one 1] = true ∧ lift 0 1 [.one 2, .one 1] = [.o
 
 /-- Bucklin: decided in the second round -/
 def exBucklin : RProfile := [([.one 1, .one 0], 2), ([.one 2, .one 0], 2), ([.one 0, .one 1], 1)]
-example : evalBucklin exBucklin = .ok [Slot.cand 0] ∧ (∀ bw ∈ exBucklin, 0 ≤ bw.2) := by decide +kernel
+example : evalBucklin exBucklin = .ok [Slot.cand 0] ∧ (∀ bw ∈ exBucklin, 0 ≤ bw.2) ∧ Strict exBucklin ∧
+    evalBucklinSplit exBucklin = .ok [Slot.cand 0] := by decide +kernel
 example : evalBucklin (addTo exBucklin [.one 0] 1) = .ok [Slot.cand 0] := by decide +kernel
 
 def exApproval : AProfile := [([0, 1], 2), ([1, 2], 1), ([0], 2), ([2], 1)]
